@@ -196,6 +196,8 @@ def run(ctx):
     ctx.guarded(r, AC.check_strictness)
     from .. import x86pw as PW86
 
+    r = ctx.rule("R0", "the choice byte's encoding: Unknown = 0, Both = Left | Right, Left = 1 / Right = 2 as the computed bytes assume, CHOICE_* are the enum's values", 5)
+    ctx.guarded(r, PW86.r_choice_encoding)
     r = ctx.rule("R2v", "x86_64 tracing min / max / and / or: on every order type of the operands (values / interval bounds) the selected path records the interpreter's choice once, sets the flag iff it is decided and advances the pointer once", 8)
     for kind in AC.TRACING:
         ctx.guarded(r, PW86.check_piecewise, kind, only=PW86.CHOICE_OPS)
